@@ -10,6 +10,8 @@
 (*        the value is whatever the field holds at that moment)            *)
 (*   WM x / RM x (x is bound to a fresh object; a METHOD of the object in  *)
 (*        x is called and tells which object it ran on)                    *)
+(*   P    (a fault that only the rule-level recover catches: the execution *)
+(*        fails there)                                                     *)
 (*   CW x (a conc block with a slow assignment to local x and a sibling    *)
 (*        that succeeds: after the block x is assigned)                    *)
 (*   CF x (a conc block with a slow assignment to local x and a failing    *)
@@ -60,6 +62,8 @@ EOpCore(e, i, val) ==
        [] op.k \in {"H", "T"}
                       -> /\ ex' = [ex EXCEPT ![e].pc = i] /\ UNCHANGED inj
        [] op.k = "CF" -> /\ ex' = [ex EXCEPT ![e].pc = i, ![e].store = (op.name :> val) @@ @, ![e].failed = TRUE]
+                         /\ UNCHANGED inj
+       [] op.k = "P"  -> /\ ex' = [ex EXCEPT ![e].pc = i, ![e].failed = TRUE]
                          /\ UNCHANGED inj
        [] op.k = "WI" -> /\ ex' = [ex EXCEPT ![e].pc = i]
                          /\ inj' = (op.name :> val) @@ inj
